@@ -5,6 +5,9 @@ VERIF = os.path.dirname(os.path.dirname(os.path.abspath(__file__)))
 NOTES = {
     "C08-m2": "outside C08's quantifier: needs several client threads calling start() concurrently; the property speaks of submissions made by the owning thread",
     "C11-m2": "a data race (lock released before the critical work): reported by C15; invisible to C11 by construction (DESIGN.md section 5, C11 S)",
+    "C20-m3": "judged equivalent w.r.t. the literal property: isFinished() still becomes true only after run() returned and join() still returns after the Runnable was destroyed; "
+              "only the order 'flag, then delete' vs 'delete, then flag' changes, which the property does not fix",
+    "C20-m4": "a memory-ordering defect (relaxed store): invisible to the sequentially consistent scheduler of C20; reported by C15's Thread completion-flag family (ThreadSanitizer)",
     "ring_pop_front_destroys_shell": "equivalent w.r.t. C09: destroying the moved-from shell right away is at least as correct as leaving it",
     "pool_worker_ignores_stop_when_work": "equivalent w.r.t. C07/C08: workers drain the queue during stop(); no task starts after stop() returned, every task is destroyed once",
     "path_pathname_size_minus_1": "equivalent w.r.t. C18: only getPathName of a path WITH trailing separator changes; the stated law concerns join(d, n), which never ends in a separator",
